@@ -313,6 +313,48 @@ def cards_part(run, bulk):
             run.sample({"card kinds": "".join(kinds), "fmt": fmt, "lines": nlines, "reader view": "".join(trimmed)})
 
 
+def wtinclude_part(run, bulk, wr):
+    """growth: the writer side of BulkInclude - wtinclude statements for paths of 0-5 directories, wrapped at three line limits, relative and
+    absolute, are read back by the INCLUDE-following reader"""
+    import os, shutil, tempfile
+    spec = "BulkInclude (writer)"
+    root = tempfile.mkdtemp(prefix="verif_wtinc_")
+    try:
+        for (depth, seg, mx, rel), mustwrap, piece in sorted(wr):
+            depth, seg, mx = int(depth), int(seg), int(mx)
+            dirs = [("dir%dxxxxxxxxxxxxxxxxxxxxxxx" % k)[:seg] for k in range(depth)]
+            d = os.path.join(root, *dirs)
+            os.makedirs(d, exist_ok=True)
+            target = os.path.join(d, "file3.bdf")
+            with open(target, "w") as fh:
+                fh.write("CARDX,301\n")
+            case = {"depth": depth, "segment": seg, "max_length": mx, "relative": bool(rel)}
+            run.case(("wtinclude", depth, seg, mx, bool(rel)), nontrivial=bool(mustwrap), part="wtinclude (growth)")
+            try:
+                f = io.StringIO()
+                bulk.wtinclude(f, target, current_path=root if rel else None, max_length=mx)
+                st = f.getvalue()
+                main = os.path.join(root, "main.bdf")
+                with open(main, "w") as fh:
+                    fh.write(st + "CARDX,101\n")
+                got = bulk.rdcards(main, "cardx", return_var="list")
+                ids = [int(c[0]) for c in (got or [])]
+                if ids != [301, 101]:
+                    run.deviation(spec, "the statement written by wtinclude is not followed to the file it names (cards delivered %r)" % ids, dict(case, text=st))
+                    continue
+                lines = st.rstrip("\n").split("\n")
+                if rel:
+                    if (bool(mustwrap) and len(lines) < int(piece)) or "".join(lines) != "INCLUDE '%s'" % "/".join(dirs + ["file3.bdf"]) \
+                            or any(len(l) > mx for l in lines):
+                        run.deviation(spec, "wtinclude: statement of %d characters at limit %d is laid out on %d line(s) (no line longer than the limit, lines joined = the statement, at least ceil(len / limit) lines)" % (
+                            len("".join(lines)), mx, len(lines)), dict(case, text=st))
+            except Exception as ex:
+                run.deviation(spec, "wtinclude / rdcards raised %r" % ex, case)
+            run.trace_validated()
+    finally:
+        shutil.rmtree(root, ignore_errors=True)
+
+
 def include_part(run, bulk):
     """growth: INCLUDE-following state machine (specs/BulkInclude.tla) - every small file tree is written to disk and read back"""
     import shutil
@@ -325,6 +367,8 @@ def include_part(run, bulk):
     trees = res.tagged("TREE")
     if run.tier == "quick":
         trees = trees[::2]
+    if res.tagged("WRINC"):
+        wtinclude_part(run, bulk, [(tuple(c_), mw_, pc_) for c_, mw_, pc_ in res.tagged("WRINC")[0][0]])
     root = tempfile.mkdtemp(prefix="c12inc_")
     try:
         os.makedirs(os.path.join(root, "sub"))
